@@ -32,6 +32,8 @@ def run(ctx):
 
     check_dispatch(ctx)
     check_foreign(ctx)
+    from .c05 import check_container_inputs
+    check_container_inputs(ctx, ctx.model)
     check_mapper_method_names(ctx)
     check_derivation_rule(ctx)
     check_traversals(ctx)
